@@ -373,9 +373,43 @@ let rand_stream r oc n =
       if G.emit_case oc ~stream:"c06-rand" ~extra:[ "pol", JS "rand"; "depth", JI 1 ] env main (G.gen_ctx r) then incr made
   done
 
+(* a filter and a function that share their name: the policy answers per kind. The allowed one is used first, the
+   forbidden one afterwards, in one sandboxed template and in two sandboxed includes one after the other; also deep
+   chains of plain includes below the sandboxed one (the flag has no depth at which it wears off) *)
+let samename_stream oc =
+  let customs2 = customs @ [ { G.ckind = "filter"; G.cname = "spyb"; G.cb = M.CbId }; { G.ckind = "function"; G.cname = "spyb"; G.cb = M.CbId } ] in
+  let fcall = print (call "spyb" [ var "n" ]) and ffilt = print (filt (var "x") "spyb" []) in
+  List.iter (fun (allowed_kind, first, second) ->
+    let forb = if allowed_kind = "function" then "filter" else "function" in
+    let pol = if allowed_kind = "function" then ([ "spya"; "upper" ], [ "spyb"; "spyfna" ]) else ([ "spyb"; "spya"; "upper" ], [ "spyfna" ]) in
+    List.iter (fun (shape, tpls) ->
+      let env = { G.tpls = tpls; G.custom = customs2; G.policy = Some pol } in
+      let extra = [ "pos", JS ("samename-" ^ shape); "nest", JL []; "depth", JI 0; "pol", JS ("only-" ^ allowed_kind); "boundary", JS "plain";
+                    "target", JS (forb ^ ":spyb"); "target_allowed", JB false; "must_fail", JB true;
+                    "forbidden_reached", JL [ JS (forb ^ ":spyb") ]; "forbidden_inside", JL [ JS (forb ^ ":spyb") ] ] in
+      if G.emit_case oc ~stream:"c06-samename" ~extra env "main" ctx0 then incr emitted else incr skipped)
+      [ "one-template", [ ("sb0", [ text "<"; first; text "|"; second; text ">" ]); ("main", [ text "["; include_ ~sandboxed:true (lit_str "sb0"); text "]" ]) ];
+        "two-includes", [ ("sbA", [ text "<"; first; text ">" ]); ("sbB", [ text "<"; second; text ">" ]);
+                          ("main", [ text "["; include_ ~sandboxed:true (lit_str "sbA"); include_ ~sandboxed:true (lit_str "sbB"); text "]" ]) ];
+        "loop", [ ("sb0", [ M.NFor (None, bs "i", M.EArr [ lit_int 1; lit_int 2; lit_int 3 ], [ first ], None); second ]);
+                  ("main", [ include_ ~sandboxed:true (lit_str "sb0") ]) ] ])
+    [ ("function", fcall, ffilt); ("filter", ffilt, fcall) ];
+  (* a chain of plain includes below a sandboxed include, the forbidden spy at the bottom *)
+  List.iter (fun depth ->
+    let name k = Printf.sprintf "d%d" k in
+    let tpls = List.init depth (fun k -> (name k, [ text "("; include_ (lit_str (name (k + 1))); text ")" ]))
+               @ [ (name depth, [ print (filt (var "x") "spy" []) ]); ("main", [ text "["; include_ ~sandboxed:true (lit_str (name 0)); text "]" ]) ] in
+    let env = { G.tpls = tpls; G.custom = customs; G.policy = Some ([ "spya"; "upper" ], [ "spyfna" ]) } in
+    let extra = [ "pos", JS "deep-include-chain"; "nest", JL []; "depth", JI depth; "pol", JS "allbut"; "boundary", JS "plain";
+                  "target", JS "filter:spy"; "target_allowed", JB false; "must_fail", JB true;
+                  "forbidden_reached", JL [ JS "filter:spy" ]; "forbidden_inside", JL [ JS "filter:spy" ] ] in
+    if G.emit_case oc ~stream:"c06-deep" ~extra env "main" ctx0 then incr emitted else incr skipped)
+    [ 1; 5; 14; 15; 16; 17; 18; 25; 40 ]
+
 let run ~seed ~tier oc =
   let r = mk_rng seed in
   let thorough = tier = "thorough" in
+  samename_stream oc;
   let exhaustive_len = if thorough then 2 else 1 in
   (* every position x target x policy under every nesting up to exhaustive_len, all boundaries at nesting length 0 *)
   for len = 0 to exhaustive_len do
